@@ -87,6 +87,10 @@ type StreamLink struct {
 	MaxSegs   int
 	ShortRead int // percent of reads that return fewer octets than available
 	Window    int // receive window in octets (0 = 1 MiB)
+	// EOFWithData: percent of the reads that empty the buffer of a direction whose writer has
+	// closed and that return those last octets together with io.EOF, as an io.Reader may (a
+	// kernel socket does not, a TLS connection or a wrapped one can).
+	EOFWithData int
 }
 
 // DgramLink configures datagram faults (percent each).
@@ -334,6 +338,10 @@ func (o *readOp) Done(now time.Time) {
 		c.rx.buf = c.rx.buf[n:]
 		o.n = n
 		c.ReadTotal += n
+		if len(c.rx.buf) == 0 && c.rx.eof && c.n.Stream.EOFWithData > 0 && c.n.K.Env.IntN(100) < c.n.Stream.EOFWithData {
+			o.err = io.EOF
+			c.n.K.BumpLocked("fault.last_octets_together_with_eof")
+		}
 	case c.rx.rst:
 		o.err = ErrReset
 	default:
@@ -568,6 +576,31 @@ func (c *StreamConn) Close() error {
 		}
 		c.tx.q = append(c.tx.q, seg{eof: true})
 		k.At(t, "deliver-eof", c.tx.id, &deliverEv{n: c.n, h: c.tx})
+	}
+	return nil
+}
+
+// CloseWrite ends this side's sending (a FIN): the peer reads EOF after what was
+// written, this side can still read.
+//
+//go:norace
+func (c *StreamConn) CloseWrite() error {
+	k := c.n.K
+	hbRelease(&c.tx.hb)
+	k.Lock()
+	defer k.Unlock()
+	if c.closed {
+		return ErrClosed
+	}
+	if !c.tx.weof {
+		c.tx.weof = true
+		t := time.Now()
+		if t.Before(c.tx.lastAt) {
+			t = c.tx.lastAt
+		}
+		c.tx.q = append(c.tx.q, seg{eof: true})
+		k.At(t, "deliver-eof", c.tx.id, &deliverEv{n: c.n, h: c.tx})
+		k.EffectLocked("closewrite #" + strconv.Itoa(c.ID))
 	}
 	return nil
 }
@@ -860,7 +893,15 @@ type PacketConn struct {
 	// temporary error instead, leaving the datagram queued.
 	Transient []int
 	attempts  int
+	// Anonymous: the socket is of a kind whose peers need not have an address (a unixgram socket and
+	// clients that did not bind): ReadFrom reports no address, and a reply - which can only be
+	// addressed to nobody - is refused by the socket. What the server tried to send is kept in Unroutable.
+	Anonymous  bool
+	Unroutable [][]byte
 }
+
+// ErrNoDest is what a datagram socket says to a send without a destination.
+var ErrNoDest = errors.New("simnet: sendto: destination address required")
 
 // DgramConn is a client's connected datagram socket (net.Conn and
 // net.PacketConn, so the library treats it as a packet connection).
@@ -1087,6 +1128,9 @@ func (pc *PacketConn) ReadFrom(p []byte) (int, net.Addr, error) {
 	if err != nil {
 		return 0, nil, err
 	}
+	if pc.Anonymous {
+		return o.n, nil, nil
+	}
 	return o.n, o.d.From, nil
 }
 
@@ -1154,6 +1198,15 @@ func (o *sendOp) Done(now time.Time) {
 
 //go:norace
 func (pc *PacketConn) sendFrom(site string, p []byte, addr net.Addr, from Addr) error {
+	if pc.Anonymous && addr == nil {
+		k := pc.n.K
+		k.Yield(site, pc.ID)
+		k.Lock()
+		pc.Unroutable = append(pc.Unroutable, append([]byte(nil), p...))
+		k.EffectLocked("unroutable " + strconv.Itoa(len(p)))
+		k.Unlock()
+		return ErrNoDest
+	}
 	var to *endpoint
 	if addr != nil {
 		if c := pc.peers[addr.String()]; c != nil {
